@@ -64,7 +64,8 @@ def instances(tier):
     all_prefixes = ["", "r", "R", "u", "U", "b", "B", "f", "F", "br", "bR", "Br", "BR", "rb", "rB", "Rb", "RB", "fr", "fR", "Fr", "FR", "rf", "rF", "Rf", "RF"]
     prefixes = all_prefixes if tier == "thorough" else ["", "r", "b", "f", "Rb", "u", "rf", "Fr"]
     for L in range(0, b["frame_body_L"] + 1):
-        for p in prefixes:
+        # every spelling for short bodies; for the long ones one spelling of each kind (the body scan does not depend on the case / order of the prefix letters)
+        for p in (prefixes if (tier != "thorough" or L <= 4) else ["", "r", "b", "f", "u", "Rb", "bR", "fr", "rf", "F"]):
             for q in ("'", '"', "'''", '"""'):
                 if "f" in p.lower() and L > b["fstring_body_L"]:
                     continue  # rope scans kept-verbatim f-string bodies char by char (6 classes per char)
